@@ -250,6 +250,15 @@ def gamma3(tier, seed):
         for op2 in OPS3:
             pat = [{"mov": [{op1: ["x", {op2: ["y", "z"]}]}, "c"]}, "d"]
             out.append({"id": f"g3/op2/{op1}/{op2}", "doc": doc_of(pat), "feature": "op_nested"})
+    # a $deref next to plain operands inside an operand-level operator (typing context must not leak between siblings)
+    D = {"$deref": {"main_reg": "rsp", "constant_offset": "0x8"}}
+    for op in OPS3:
+        for kids, nm in (([D, "rbx"], "deref_first"), (["rbx", D], "deref_last"), ([D, "rbx", "rcx"], "deref_first3")):
+            if op == "$and_any_order" and len(kids) > 2:
+                continue
+            pat = [{"mov": [{op: kids}, "rax"]}, "d"]
+            out.append({"id": f"g3/op_deref/{op}/{nm}", "doc": doc_of(pat), "feature": "op_with_deref", "domain": "att_mem", "lemmas": ("AEM", "EA", "NE", "VAL")})
+    out.append({"id": "g3/op_deref/two_derefs", "doc": doc_of([{"mov": [{"$or": [D, {"$deref": {"main_reg": "rbp"}}]}, {"$or": ["rax", D]}]}, "d"]), "feature": "op_with_deref", "domain": "att_mem", "lemmas": ("AEM", "EA", "NE", "VAL")})
     # alternatives inside a $deref field (the list form the test-suite uses)
     for fld, alts in (("main_reg", ["rsp", "rbp"]), ("main_reg", ["%rax", "rbx", "rcx"])):
         d = {"$deref": {fld: [{"$or": alts}], "constant_offset": "0x8"}}
